@@ -6,7 +6,8 @@ from harness.lib import zl, cz, cbool, clist
 
 ID = 'C11'
 RULE = ('flat cases: a data set of n sorted entries (group key, start, DNA sequence) cut into consecutive non-empty chunks '
-        '(all 2^(n-1) cuts for every n <= 7 in quick and every n <= 10 in thorough, sampled cut sets for n up to 40); on every chunking: chunk_entries / chunk_lines for '
+        '(all 2^(n-1) cuts for every n <= 7 in quick and every n <= 10 in thorough, sampled cut sets for n up to 40, plus streams with an '
+        'EMPTY chunk at the start / middle / end); on every chunking: chunk_entries / chunk_lines for '
         'several n, sum_and_n / mean / bincount / histogram (explicit bins+range) / count_kmers (k=1,2,3) on the stream, and '
         'groupby on four kinds of key column (StringArray, EncodedRaggedArray, int, StringEncoding-encoded). genome cases: '
         'genomes of 1..4 chromosomes, chunked interval streams through Genome.get_intervals(stream) and bnp.compute for '
@@ -30,10 +31,9 @@ ASSUMPTIONS = ['arithmetic on tracks: intermediate GenomicArrayNodes each create
                'count_kmers is exercised for k in {1,2,3} (k=1 since the window-of-one repair recorded under C13)',
                'floats (mean, histogram edges) are compared as exact rationals: streamed == in-memory, and within 2^-52 '
                'relative of the exact quotient']
-PARTIAL = ['C11_pipeline_spec holds under pipeline_guard: mean(axis=0) of the values under windows needs equal column counts on '
-           'the chromosomes that have values (C11_pipeline_mean_refuted; none with the repaired mean_reduction, '
-           'C11_pipeline_spec_fixed); sum(axis=0) needs windows on every chromosome with equal column counts and np.sum a '
-           'single chromosome (C11_pipeline_sum_refuted)',
+PARTIAL = ['C11_pipeline_spec holds under pipeline_guard: sum(axis=0) of the values under windows needs windows on every chromosome '
+           'with equal column counts and np.sum a single chromosome (C11_pipeline_sum_refuted); mean(axis=0) needs no guard since '
+           'the repair of mean_reduction (C11_pipeline_spec_pinned / C11_pipeline_mean_refuted are history about the pinned `+`)',
            'C11_rechunk_partial / C11_rechunk_refuted speak about chunk_entries_pinned (the `if` of the pinned commit); the current '
            'code is covered by the full C11_rechunk_fixed']
 PER_FILE = 24
@@ -168,6 +168,15 @@ def generate(tier, seed):
         for sizes in chosen:
             cases.append(_flat(ds, sizes))
             cases.append(_rechunk(sizes))
+    # --- an empty chunk somewhere in the stream (first, middle, last, two in a row)
+    for n in (1, 2, 4, 6):
+        ds = _dataset(rng, n)
+        for base in ([n], [1] * n, random_composition(rng, n, 0.5)):
+            for pos in sorted(set([0, len(base) // 2, len(base)])):
+                sizes = base[:pos] + [0] + base[pos:]
+                cases.append(_flat(ds, sizes))
+                cases.append(_rechunk(sizes))
+            cases.append(_flat(ds, [0, 0] + base))
     # --- flat: larger n, sampled
     for _ in range(12 if quick else 150):
         n = rng.randint(11, 40)
@@ -198,7 +207,7 @@ def generate(tier, seed):
                         strands[asym[i % len(asym)]] = '.'
                         if len(asym) > 1:
                             strands[asym[(i + 1) % len(asym)]] = '+-'[i % 2]
-                    c = _gen(sizes, a, b, sa, sb, kind='genstrand' if not equal or i % 4 else 'genstrandmean')
+                    c = _gen(sizes, a, b, sa, sb, kind='genstrand' if i % 4 else 'genstrandmean')
                     c['strands'] = strands
                     cases.append(c)
                     c = _gen(sizes, a, b, sa, sb, kind='genexpr')
@@ -613,13 +622,10 @@ def _predict(case):
         if None in ncols or len(set(ncols)) > 1:
             return ('error',)
         return ('value', None)
-    if len(set(n for n in ncols if n is not None)) > 1:   # genmean: `+` on column sums of chromosomes with values
-        return ('error',)
     return ('value', None)
 
 
-FINDING_OF = dict(genmean=('mean0', 'C11-mean-axis0-ragged-columns'), gensum=('sumall', 'C11-sum-values-per-window'),
-                  gensum0=('sum0', 'C11-sum-axis0-ragged-columns'))
+FINDING_OF = dict(gensum=('sumall', 'C11-sum-values-per-window'), gensum0=('sum0', 'C11-sum-axis0-ragged-columns'))
 
 
 def finding(case, o):
@@ -775,7 +781,7 @@ def _cut_inside_group(keys, sizes):
     pos = 0
     for s in sizes[:-1]:
         pos += s
-        if keys[pos - 1] == keys[pos]:
+        if 0 < pos < len(keys) and keys[pos - 1] == keys[pos]:
             return True
     return False
 
